@@ -152,6 +152,8 @@ func (ma *mergeAnalysis) ruleR9(c *Ctx) {
 			c.ok("R9", key, cc.call.Pos(), bad == "", what, bad)
 		}
 	}
+	// R9p: the split of the plugin's list into removals and sets is complete
+	ma.ruleR9p(c)
 	for _, cf := range clears {
 		c.ok("R9", "used/"+cf.Name(), cf.Pos(), used[cf] > 0, fmt.Sprintf("clear %s is used by the merge code", cf.Name()),
 			"the clear function is never called: removal of this kind never releases ownership")
@@ -312,5 +314,71 @@ func ruleR9m(c *Ctx) {
 		kf := markedKeyField(m, mt)
 		c.ok("R9m", tn+".IsMarkedForRemoval", mt.Pos(), isMarkedFn(m, mt, 0) && kf != "", fmt.Sprintf("%s.IsMarkedForRemoval delegates to IsMarkedForRemoval with its key field (%s)", tn, kf),
 			"the method does not return the results of IsMarkedForRemoval on one of its own fields")
+	}
+}
+
+// ruleR9p: every removal-marked element of the plugin's response is recorded as a removal
+// and every other element as a set — whatever else the response contains and in whatever order.
+func (ma *mergeAnalysis) ruleR9p(c *Ctx) {
+	c.rule("R9p", "complete partition: where a merge function splits the plugin's list into removals and sets, the recording of an element as a removal depends only on its own removal marker (and the recording as a set only on the absence of the marker) — not on what else the same response contains or on the order of its entries", 8)
+	for _, mf := range ma.fns {
+		seen := map[ssa.Instruction]bool{}
+		ord := 0
+		for _, b := range mf.fn.Blocks {
+			for _, in := range b.Instrs {
+				var site ssa.Instruction
+				var elem, key ssa.Value
+				switch x := in.(type) {
+				case *ssa.MapUpdate:
+					if _, local := x.Map.(*ssa.MakeMap); local {
+						site, elem, key = x, x.Value, x.Key
+					}
+				case *ssa.Call:
+					if ap, ok := isBuiltinCall(x, "append"); ok && len(ap.Call.Args) == 2 {
+						if _, local := mf.insertions(x); local {
+							if el := mf.appendedElems(ap.Call.Args[1]); len(el) == 1 {
+								site, elem = x, el[0]
+							}
+						}
+					}
+				}
+				if site == nil || seen[site] {
+					continue
+				}
+				pol := mf.markedPol(elem, b)
+				if pol == 0 && key != nil {
+					pol = mf.markedPol(key, b)
+				}
+				if pol == 0 {
+					continue // not part of a removal/set split
+				}
+				seen[site] = true
+				ord++
+				// every control other than the marker test must be the iteration over the plugin's list or an entry guard on it
+				bad := ""
+				for _, cd := range mf.itemControls(b) {
+					n := normCond(cd)
+					if ex, ok := n.V.(*ssa.Extract); ok && ex.Index == 1 {
+						if call, ok := ex.Tuple.(*ssa.Call); ok {
+							if _, isM := mf.isMarkedTest(call); isM {
+								continue
+							}
+						}
+						if lk, ok := ex.Tuple.(*ssa.Lookup); ok {
+							if _, local := mf.insertions(lk.X); local {
+								bad = fmt.Sprintf("the recording depends on whether the key is (not) already in another part of the split (test at %s): with the entries in another order, or a set and a removal of the same key in one response, the removal or the set is lost", c.pos(cd.If.Pos()))
+								continue
+							}
+						}
+					}
+					t := mf.condProv(cd)
+					if t&(tAcc|tStaged|tOwn) != 0 {
+						bad = fmt.Sprintf("the recording depends on accumulated state (test at %s)", c.pos(cd.If.Pos()))
+					}
+				}
+				kind := map[int]string{1: "removal", -1: "set"}[pol]
+				c.ok("R9p", fmt.Sprintf("%s/%s#%d", mf.fn.Name(), kind, ord), site.Pos(), bad == "", fmt.Sprintf("%s records every %s of the plugin's response", mf.fn.Name(), kind), bad)
+			}
+		}
 	}
 }
